@@ -110,10 +110,28 @@ def grad_case(case):
     else:
         kw, y, A = {}, None, None
     g = _gemini(target, kw, epsilon)
+    transported = None
+    if epsilon is not None or (n + K + int(s * 10)) % 5 == 0:
+        # the objective as scikit-learn's tooling carries it inside an estimator: cloned, deep-copied, pickled to a worker and back
+        from mc import transport
+        transported = transport.pick((cls, ovo, K, n, s, tag, epsilon))
+        try:
+            if transported == "cloudpickle" and kw.get("kernel") != "callable":
+                from sklearn.base import clone
+                from gemclus.linear import LinearModel
+                g = clone(LinearModel(gemini=g)).get_gemini()
+                transported = "clone_of_a_model_holding_it"
+            else:
+                g = transport.roundtrip(g, transported)
+        except Exception as e:  # noqa
+            return {"v": [violation("grad_nonfinite", {"transport": transported, "error": repr(e)[:200]}, target=f"{cls}(ovo={ovo})", dist=dist, K=K, n=n, scale=s,
+                                    affinity=tag, epsilon=epsilon)]}
     Aff = g.compute_affinity(X, y)
     Z = s * _table(n, K, table, seed)
     P = softmax(Z)
     where = dict(target=f"{cls}(ovo={ovo})", dist=dist, K=K, n=n, scale=s, affinity=tag, epsilon=epsilon)
+    if transported:
+        where["transport"] = transported
     v = []
     with np.errstate(all="ignore"):
         s0, G = g(P.copy(), Aff, return_grad=True)
